@@ -99,7 +99,13 @@ func (f *finisher) worker(workerID string) {
 		case <-controlChans.PauseCh:
 			logger.Debug("received pause event")
 			verifhook.At("fin.paused", workerID)
-			controlChans.ResumeCh <- struct{}{}
+			// Wait to be resumed, but not beyond shutdown: nobody resumes a stopping pipeline
+			select {
+			case controlChans.ResumeCh <- struct{}{}:
+			case <-f.ctx.Done():
+				logger.Debug("shutting down while paused")
+				return
+			}
 			verifhook.At("fin.woken", workerID)
 			logger.Debug("received resume event")
 		case seed, ok := <-f.inputCh:
